@@ -23,6 +23,7 @@ type Mutant struct {
 	Replace  string `json:"replace"`
 	Expect   string `json:"expect"`
 	Note     string `json:"note"`
+	Tier     string `json:"tier,omitempty"` // "whole": evaluated with the whole-program rules (HAQQCHECK_WHOLE=1)
 	Extra    []struct {
 		Find    string `json:"find"`
 		Replace string `json:"replace"`
@@ -50,9 +51,12 @@ func loadMutants(verif string) ([]Mutant, error) {
 	return ms, nil
 }
 
-func violatedKeys(self, repo, verif, prop string) ([]string, string, error) {
+func violatedKeys(self, repo, verif, prop string, whole ...bool) ([]string, string, error) {
 	cmd := exec.Command(self, "-property", prop, "-repo", repo, "-verif", verif)
 	cmd.Env = append(os.Environ(), "GOFLAGS=-mod=mod", "GOPROXY=off", "GOSUMDB=off", "GOTOOLCHAIN=local", "GOWORK=off")
+	if len(whole) > 0 && whole[0] {
+		cmd.Env = append(cmd.Env, "HAQQCHECK_WHOLE=1")
+	}
 	var out bytes.Buffer
 	cmd.Stdout, cmd.Stderr = &out, &out
 	err := cmd.Run()
@@ -86,9 +90,12 @@ func runMutants(repo, verif string, ms []Mutant, parallel int) []mutantResult {
 	props := map[string]bool{}
 	for _, m := range ms {
 		props[m.Property] = true
+		if m.Tier == "whole" {
+			props[m.Property+"|whole"] = true
+		}
 	}
 	for p := range props {
-		keys, out, err := violatedKeys(self, repo, tv, p)
+		keys, out, err := violatedKeys(self, repo, tv, strings.TrimSuffix(p, "|whole"), strings.HasSuffix(p, "|whole"))
 		if err != nil {
 			fmt.Println("selftest: baseline run failed for", p, "\n", out)
 		}
@@ -142,7 +149,11 @@ func runMutants(repo, verif string, ms []Mutant, parallel int) []mutantResult {
 				os.WriteFile(filepath.Join(tvm, "known_findings.json"), kb, 0o644)
 			}
 			defer os.RemoveAll(tvm)
-			keys, out, err := violatedKeys(self, dir, tvm, m.Property)
+			bk := m.Property
+			if m.Tier == "whole" {
+				bk += "|whole"
+			}
+			keys, out, err := violatedKeys(self, dir, tvm, m.Property, m.Tier == "whole")
 			if err != nil {
 				res.Status = "build-error"
 				if i := strings.Index(out, "ANALYSER-FAILURE"); i >= 0 {
@@ -151,7 +162,7 @@ func runMutants(repo, verif string, ms []Mutant, parallel int) []mutantResult {
 				return
 			}
 			for _, k := range keys {
-				if !baseKeys[m.Property][k] {
+				if !baseKeys[bk][k] {
 					res.New = append(res.New, k)
 				}
 			}
